@@ -42,10 +42,15 @@ theorem compile_compiles (cfg : CompCfg) (F : Val → Prop) (hF : AliasFree F) :
     obtain ⟨hk, e1, i1⟩ := mkConst_spec hF hinv (nofloat_str F _) h1
     exact ⟨i1, e1, fun K hK => by rw [Compiles_str]; exact ⟨k, hK.get hk, rfl⟩⟩
   | .const m v, p, code, p', h, hinv, hfl => by
-    rw [compileNode_const] at h; comp_simp at h
-    obtain ⟨k, p1, h1, rfl, rfl⟩ := h
-    obtain ⟨hk, e1, i1⟩ := mkConst_spec hF hinv hfl h1
-    exact ⟨i1, e1, fun K hK => by rw [Compiles_const]; exact ⟨k, hK.get hk, rfl⟩⟩
+    by_cases hv : v = .nil
+    · subst hv
+      rw [compileNode_const_nil] at h; comp_simp at h
+      obtain ⟨rfl, rfl⟩ := h
+      exact ⟨hinv, PoolExt.refl _, fun K _ => by rw [Compiles_const]; exact .inl ⟨rfl, rfl⟩⟩
+    · rw [compileNode_const _ _ hv] at h; comp_simp at h
+      obtain ⟨k, p1, h1, rfl, rfl⟩ := h
+      obtain ⟨hk, e1, i1⟩ := mkConst_spec hF hinv hfl h1
+      exact ⟨i1, e1, fun K hK => by rw [Compiles_const]; exact .inr ⟨hv, k, hK.get hk, rfl⟩⟩
   | .unary m op x, p, code, p', h, hinv, hfl => by
     rw [compileNode_unary] at h; comp_simp at h
     obtain ⟨cx, p1, h1, h2⟩ := h
